@@ -216,19 +216,20 @@ func (e *esdtNFTCreateRoleTransfer) executeTransferNFTCreateChangeAtNextOwner(
 	tokenID := vmInput.Arguments[0]
 	nonce := big.NewInt(0).SetBytes(vmInput.Arguments[1]).Uint64()
 
-	currentNonce, err := getLatestNonce(acntDst, tokenID)
-	if err != nil {
-		return err
+	// a failed read means "no counter yet" (an account that has never stored anything has no data trie)
+	currentNonce, errRead := getLatestNonce(acntDst, tokenID)
+	if errRead != nil {
+		currentNonce = 0
 	}
 	if nonce > currentNonce {
-		err = saveLatestNonce(acntDst, tokenID, nonce)
+		err := saveLatestNonce(acntDst, tokenID, nonce)
 		if err != nil {
 			return err
 		}
 	}
 
 	esdtTokenRoleKey := append(roleKeyPrefix, tokenID...)
-	err = e.addCreateRoleToAccount(acntDst, esdtTokenRoleKey)
+	err := e.addCreateRoleToAccount(acntDst, esdtTokenRoleKey)
 	if err != nil {
 		return err
 	}
